@@ -271,7 +271,7 @@ fn run_sequence(fills: &[Fill], with_engine: bool, want_obs: bool) -> Result<Out
         led.cash += if f.buy { -notional } else { notional };
         led.cash -= fee;
         led.fees += fee;
-        led.gross += abs(notional) + fee;
+        led.gross += abs(notional) + abs(fee);
         led.qsum += q;
         led.n += 1;
         let e = eps(&led);
@@ -500,6 +500,8 @@ fn gen_sequence(rng: &mut Rng, next_id: &mut u32) -> Vec<Fill> {
                 }
             }
         };
+        // maker rebates: a fill may carry a negative fee (the venue pays the trader)
+        let fee = if !fee.is_zero() && rng.chance(1, 10) { -fee } else { fee };
         net += if buy { q } else { -q };
         *next_id += 1;
         fills.push(Fill { id: *next_id, buy, p: p.normalize().to_string(), q: q.normalize().to_string(), fee: fee.normalize().to_string() });
@@ -527,6 +529,9 @@ fn execute(fills: &[Fill], with_engine: bool, report: &mut Report, log: &LogSink
             report.case(h, nontrivial);
             if fills.iter().any(|f| f.fee == "0") {
                 report.cover("zero_fee");
+            }
+            if fills.iter().any(|f| f.fee.starts_with('-')) {
+                report.cover("negative_fee_(rebate)");
             }
             if fills.iter().any(|f| f.fee != "0") {
                 report.cover("nonzero_fee");
@@ -588,7 +593,7 @@ fn main() {
     });
     log.flush();
     if args.tier != "miri" {
-        for c in ["open", "increase", "reduce", "close", "flip", "flip->reduce", "reduce->increase", "flip->flip", "zero_fee", "nonzero_fee", "engine_path", "close->open",
+        for c in ["open", "increase", "reduce", "close", "flip", "flip->reduce", "reduce->increase", "flip->flip", "zero_fee", "nonzero_fee", "negative_fee_(rebate)", "engine_path", "close->open",
             "market:l1_without_levels:with_open_position", "market:liquidation:with_open_position", "market:candle:with_open_position", "market:public_trade:with_open_position",
             "strategy_issues_orders_on_the_tick_of_a_fill", "position_closed_on_a_tick_that_also_generated_orders", "position_closed_on_a_tick_whose_orders_could_not_be_delivered"] {
             report.require(c);
